@@ -83,6 +83,11 @@ MonTerminalKept(p, q) ==
       /\ q.lam[a] >= p.lam[a]
       /\ q.esc[a] >= p.esc[a] /\ q.out[a] >= p.out[a] /\ q.out2[a] >= p.out2[a]
 
+(* a terminal action can be closed: a close attempted by its owner or by a keeper (with the right
+   accounts) does not fail, so what it holds is never locked in *)
+MonTerminalClosable(p, o, ok) ==
+  (o.op = "close" /\ o.a \in ActionsOf(p) /\ Terminal(p.st[o.a]) /\ o.by \in {"owner", "keeper"}) => ok
+
 (* ActionState::completed / cancelled called on a terminal state must fail *)
 MonDirectTerminal(from, ok) == Terminal(from) => ~ok
 
